@@ -8,7 +8,7 @@ use rink_core::ast::Expr;
 use rink_core::{Context, Value};
 use serde_json::json;
 
-const GLOBAL: [&str; 8] = [
+const GLOBAL: [&str; 9] = [
     "loads without errors or warnings and prints nothing",
     "two independent loads give identical databases",
     "quantities are one-to-one with dimensionalities",
@@ -17,6 +17,7 @@ const GLOBAL: [&str; 8] = [
     "no temporaries are left behind",
     "prefix table has no duplicates and every long prefix is also a unit",
     "queries and lookups between the two loads do not change what the overlay load produces",
+    "every entry of every loaded file and of the currency snapshot is stored under its own name",
 ];
 
 pub struct C08 {
@@ -26,6 +27,8 @@ pub struct C08 {
     prefix_defs: Vec<(String, Expr, bool)>,
     /// (name, right-hand side text) of every unit line of the bundled files (own line splitter)
     unit_texts: Vec<(String, String)>,
+    /// how many of them come from definitions.units (the rest from currency.units)
+    n_default_texts: usize,
     /// (name, expression text) of every quantity line of the bundled files
     quantity_texts: Vec<(String, String)>,
     /// (substance, index of the property in its block) for every property of every substance block
@@ -67,6 +70,7 @@ impl C08 {
         }
         fams.add("per-prefix fixed point", vec![2, prefix_defs.len() as u64]);
         let mut unit_texts = unit_lines(rink_core::DEFAULT_FILE.unwrap());
+        let n_default_texts = unit_texts.len();
         unit_texts.extend(unit_lines(rink_core::CURRENCY_FILE.unwrap()));
         fams.add("definition text read by the query parser", vec![2, unit_texts.len() as u64]);
         let mut quantity_texts = quantity_lines(rink_core::DEFAULT_FILE.unwrap());
@@ -83,7 +87,7 @@ impl C08 {
             }
         }
         fams.add("substance properties re-evaluated with the block's earlier names bound by the harness", vec![2, substance_props.len() as u64]);
-        C08 { fams, names, prefix_defs, unit_texts, quantity_texts, substance_props, ctxs: [Lazy::new(), Lazy::new()] }
+        C08 { fams, names, prefix_defs, unit_texts, n_default_texts, quantity_texts, substance_props, ctxs: [Lazy::new(), Lazy::new()] }
     }
 }
 
@@ -256,7 +260,7 @@ impl Space for C08 {
         Meta {
             id: "C08",
             level: "exploration",
-            rule: "every name of the loaded registry (all units and all stored definitions), in both configurations (bundled definitions; bundled + currency.units + currency snapshot): the stored value equals Context::eval of the stored definition, its dimensionality uses declared base units only, alias chains end at a real definition; plus every prefix line of the bundled files (text re-read with rink's parser, evaluated by the runtime evaluator in the loaded context, compared with the prefix table and, for long prefixes, with the unit of the same name); plus every quantity line `name ? expr`: the stored dimensionality must be the one an own exponent-vector evaluation of the expression over the loaded quantity table gives; plus every property of every substance block re-evaluated with the block's earlier names bound by the harness from the stored values (the loader binds them through a scratch map); plus eight whole-database checks (silent error-free load with fd 1 captured, identical Debug dumps of two loads, quantity injectivity, doc/category ownership, no temporaries, prefix table, overlay loaded after the context has been queried). Non-trivial = the name exists in that configuration; distinct by (config, name/check)".into(),
+            rule: "every name of the loaded registry (all units and all stored definitions), in both configurations (bundled definitions; bundled + currency.units + currency snapshot): the stored value equals Context::eval of the stored definition, its dimensionality uses declared base units only, alias chains end at a real definition; plus every plain unit line of the loaded files must be stored under its own name (an overlay entry whose name also reads as prefix + unit is still an entry); plus every prefix line of the bundled files (text re-read with rink's parser, evaluated by the runtime evaluator in the loaded context, compared with the prefix table and, for long prefixes, with the unit of the same name); plus every quantity line `name ? expr`: the stored dimensionality must be the one an own exponent-vector evaluation of the expression over the loaded quantity table gives; plus every property of every substance block re-evaluated with the block's earlier names bound by the harness from the stored values (the loader binds them through a scratch map); plus nine whole-database checks (every entry of the loaded files and of the snapshot stored under its name, silent error-free load with fd 1 captured, identical Debug dumps of two loads, quantity injectivity, doc/category ownership, no temporaries, prefix table, overlay loaded after the context has been queried). Non-trivial = the name exists in that configuration; distinct by (config, name/check)".into(),
             assumptions: vec!["`Debug` output of Registry shows every field (derive(Debug))".into()],
             exhaustive: true,
             extra: json!({"families": self.fams.summary(), "whole_database_checks": GLOBAL}),
@@ -387,6 +391,32 @@ impl Space for C08 {
                             out = out.viol("answers depend on queries made between the two loads", format!("`{}`: {:?} versus {:?}", q, x, y));
                         }
                     }
+                }
+                8 => {
+                    use rink_core::ast::Def;
+                    let mut entries = rink_core::loader::gnu_units::parse_str(rink_core::DEFAULT_FILE.unwrap()).defs;
+                    if c == 1 {
+                        entries.extend(rink_core::loader::gnu_units::parse_str(rink_core::CURRENCY_FILE.unwrap()).defs);
+                        let live: Vec<rink_core::ast::DefEntry> = serde_json::from_str(CURRENCY_JSON).expect("the snapshot is a list of entries");
+                        entries.extend(live);
+                    }
+                    let mut n = 0;
+                    for e in &entries {
+                        let name = &e.name;
+                        let stored = match &*e.def {
+                            Def::BaseUnit { .. } => r.base_units.contains(&name[..]),
+                            Def::Prefix { .. } => r.prefixes.iter().any(|(p, _)| p == name),
+                            Def::Unit { .. } => r.units.contains_key(name) || r.substances.contains_key(name),
+                            Def::Quantity { .. } => r.quantities.values().any(|q| q == name) || r.definitions.contains_key(name),
+                            Def::Substance { .. } => r.substances.contains_key(name),
+                            _ => true,
+                        };
+                        n += 1;
+                        if !stored {
+                            out = out.viol("an entry of a loaded file is not stored under its name", format!("entry `{}` ({}) is missing from the database although the load reported nothing", name, cfg_name(c)));
+                        }
+                    }
+                    out = out.count("entries_checked", n);
                 }
                 5 => {
                     let dbg = format!("{:?}", ctx);
@@ -528,7 +558,16 @@ impl Space for C08 {
             let stored = match r.units.get(name) {
                 Some(v) => v,
                 None => {
-                    out.outcome = "not a unit in this configuration (substance / failed)".into();
+                    // every entry of a file that was loaded is stored under its own name
+                    let loaded_here = (d[1] as usize) < self.n_default_texts || c == 1;
+                    if loaded_here && !r.substances.contains_key(name) {
+                        out.outcome = "entry of a loaded file is not stored".into();
+                        return out.viol(
+                            "an entry of a loaded file is not stored under its name",
+                            format!("`{} {}`: no unit or substance `{}` in the database ({}), although the load reported nothing", name, rhs, name, cfg_name(c)),
+                        );
+                    }
+                    out.outcome = "not a unit in this configuration (substance / file not loaded)".into();
                     return out;
                 }
             };
